@@ -100,6 +100,10 @@ def run(tier, seed, build):
             oroots = []
             for k, o in enumerate(others):
                 r = os.path.join(wd, "t%d" % ti, "pO%d" % k, "pT"); write_project(r, o["files"]); oroots.append(r)
+            # a twin of the target: the same relative file names and arguments, every component template slightly
+            # different (one more, unused, sequence); compiled first in the same interpreter, from its own directory
+            twroot = os.path.join(wd, "t%d" % ti, "pTwin", "pT")
+            write_project(twroot, {n: (t + ('\nsequence zzztwin = "3N"\n' if n.endswith(".comp") else "")) for n, t in target["files"].items()})
             fixed = None
             if target["_gen"] is not None and rng.random() < 0.5:
                 try:
@@ -129,18 +133,32 @@ def run(tier, seed, build):
                             j.update(args=target["args"], synth=synth, out=os.path.join(troot, "out_%d_%d_%s_%s" % (hs, nearlier, where, "pil" if synth else "des")), save=os.path.join(troot, "out_%d_%d_%s_%s.save" % (hs, nearlier, where, "pil" if synth else "des")))
                             jobs.append(j)
                         plan.append((hs, nearlier, where, jobs))
+            for hs in seeds[:2]:
+                for where in ("root", "parent"):
+                    jobs = []
+                    for synth in (True, False):
+                        for root in (twroot, troot):
+                            if where == "root":
+                                j = {"cwd": root, "base": target["base"], "includes": target["includes"] or None, "fixed": None}
+                            else:
+                                j = {"cwd": os.path.dirname(root), "base": "pT/" + target["base"], "includes": ["pT/" + i for i in target["includes"]] or None, "fixed": None}
+                            if root == troot and fixed: j["fixed"] = "fix.fixed" if where == "root" else "pT/fix.fixed"
+                            j.update(args=target["args"], synth=synth, out=os.path.join(root, "tw_%d_%s_%s" % (hs, where, "pil" if synth else "des")), save=os.path.join(root, "tw_%d_%s_%s.save" % (hs, where, "pil" if synth else "des")))
+                            jobs.append(j)
+                    plan.append((hs, "twin", where, jobs))
             # the histories are independent fresh processes: run them side by side
             from concurrent.futures import ThreadPoolExecutor
             with ThreadPoolExecutor(max_workers=12) as ex:
                 done = list(ex.map(lambda pl: run_history(wd, pl[3], pl[0]), plan))
             for (hs, nearlier, where, jobs), (res, err) in zip(plan, done):
                         dist["processes"] += 1
-                        label = "hashseed=%d earlier=%d from=%s" % (hs, nearlier, where)
-                        dist["histories"]["earlier=%d from=%s" % (nearlier, where)] = dist["histories"].get("earlier=%d from=%s" % (nearlier, where), 0) + 1
+                        label = "hashseed=%d earlier=%s from=%s" % (hs, nearlier, where)
+                        dist["histories"]["earlier=%s from=%s" % (nearlier, where)] = dist["histories"].get("earlier=%s from=%s" % (nearlier, where), 0) + 1
                         if res is None:
                             failures.append({"kind": "disagreement", "key": "worker", "summary": "history worker failed: " + err, "replay": {}}); continue
                         dist["compilations"] += len(res)
-                        for job, r in zip(jobs[nearlier:], res[nearlier:]):
+                        pairs = list(zip(jobs, res))[1::2] if nearlier == "twin" else list(zip(jobs[nearlier:], res[nearlier:]))
+                        for job, r in pairs:
                             be = "pil" if job["synth"] else "des"
                             outs.setdefault(be, []).append((label, r.get("outcome"), canon_text(r["text"]) if r.get("outcome") == "ok" else canon_err(r.get("error", "")), r))
                             if r.get("outcome") == "ok":
@@ -178,7 +196,7 @@ def run(tier, seed, build):
     finally:
         shutil.rmtree(wd, ignore_errors=True)
     return {"evaluations": dist["compilations"], "distinct_nontrivial": len(nontrivial),
-            "rule": "%d target projects (system libraries as C02, half with a fixed-sequence file using S/N over degenerate constraints) x hash seeds %r x {0, 2(+)} earlier compilations of other projects with the same relative file names in the same process x invocation from the project root / its parent x {pil, des}; every third target has an import provided by two include directories (their order must decide), every fourth is a component that defines or mentions a name of the reserved form _AnonK (must be rejected whatever was compiled before); outputs must be identical modulo the timestamp line and a consistent renumbering of anonymous names, names within an output unique; one run per target compared with the model. Non-trivial = (target, back-end) that compiles" % (ntargets, seeds),
+            "rule": "%d target projects (system libraries as C02, half with a fixed-sequence file using S/N over degenerate constraints) x hash seeds %r x {0, 2(+)} earlier compilations of other projects in the same process, plus (two hash seeds) a twin of the target - same relative file names and arguments, every component template one unused sequence longer - compiled first from its own directory, x invocation from the project root / its parent x {pil, des}; every third target has an import provided by two include directories (their order must decide), every fourth is a component that defines or mentions a name of the reserved form _AnonK (must be rejected whatever was compiled before); outputs must be identical modulo the timestamp line and a consistent renumbering of anonymous names, names within an output unique; one run per target compared with the model. Non-trivial = (target, back-end) that compiles" % (ntargets, seeds),
             "samples": samples, "distribution": dist, "failures": failures}
 
 def replay(path):
